@@ -24,7 +24,6 @@ C16 line-protocol driver.
 -/
 import CaddyModel.C16.Model
 import CaddyModel.C16.Stable
-import CaddyModel.C16.Keyed
 import CaddyModel.C16.LexProps
 import CaddyModel.C16.History
 import CaddyModel.C16.Args
@@ -71,13 +70,9 @@ def parseItems (s : String) : Option (List RouteVal) :=
 def showIdx (l : List Nat) : String :=
   if l.isEmpty then "." else ",".intercalate (l.map toString)
 
-/-- the model's sort carried out on (index, keyed route) pairs -/
-def sortIndexed (order : List String) (items : List RouteVal) : List (Nat × (RouteVal × SortKey)) :=
-  stableSort (fun (a b : Nat × (RouteVal × SortKey)) => lessKey a.2 b.2)
-    ((List.range items.length).zip (keyed order items))
-
 def answerSort (order : List String) (items : List RouteVal) : String :=
-  "ok " ++ showIdx ((sortIndexed order items).map (·.1))
+  "ok " ++ showIdx ((sortRoutes (fun (a b : Nat × RouteVal) => less order a.2 b.2)
+      ((List.range items.length).zip items)).map (·.1))
 
 /-! `site`: the shapes a Caddyfile line can realise (mirrors `shapeOK` of the harness) -/
 
@@ -134,7 +129,8 @@ def answerHistFile (g : List String) (f : CFile) : String :=
   match (adapt Gen.defaultDirectiveOrder g f).1 with
   | .rejected => "rej"
   | .ok sorted =>
-    if (sortIndexed (applyOps Gen.defaultDirectiveOrder g f.ops).1 f.routes).map (·.2.1) == sorted then
+    if (sortRoutes (fun (a b : Nat × RouteVal) => less (applyOps Gen.defaultDirectiveOrder g f.ops).1 a.2 b.2)
+        ((List.range f.routes.length).zip f.routes)).map (·.2) == sorted then
       answerSort (applyOps Gen.defaultDirectiveOrder g f.ops).1 f.routes
     else "model-inconsistent"
 
